@@ -25,9 +25,14 @@ func InitSessionCache(maxEntries int) {
 // starting at sessionHeight (the merkle root is a commitment only: any 32-byte hash is accepted
 // by the claim handler).
 func MsgClaim(from chain.Key, app chain.Key, sessionHeight int64, totalProofs int64, salt byte) sdk.ProtoMsg {
+	return MsgClaimChain(from, app, chain.ChainHash, sessionHeight, totalProofs, salt)
+}
+
+// MsgClaimChain is MsgClaim for an explicit network identifier.
+func MsgClaimChain(from chain.Key, app chain.Key, chainID string, sessionHeight int64, totalProofs int64, salt byte) sdk.ProtoMsg {
 	h := sha256.Sum256([]byte{salt, byte(sessionHeight)})
 	return &pocketTypes.MsgClaim{
-		SessionHeader: pocketTypes.SessionHeader{ApplicationPubKey: app.Pub.RawString(), Chain: chain.ChainHash, SessionBlockHeight: sessionHeight},
+		SessionHeader: pocketTypes.SessionHeader{ApplicationPubKey: app.Pub.RawString(), Chain: chainID, SessionBlockHeight: sessionHeight},
 		MerkleRoot:    pocketTypes.HashRange{Hash: h[:], Range: pocketTypes.Range{Lower: 0, Upper: uint64(totalProofs) * 1000}},
 		TotalProofs:   totalProofs,
 		FromAddress:   from.Addr,
